@@ -2,6 +2,7 @@ package servicediscovery
 
 import (
 	"fmt"
+	"sync"
 	"time"
 
 	"github.com/asaskevich/EventBus"
@@ -43,9 +44,13 @@ type serviceDiscovery struct {
 	heartbeatRunning bool
 	monitorRunning   bool
 	amILeader        bool
+	servicesLock     sync.Mutex
 }
 
 func (s *serviceDiscovery) Add(service *Service) {
+	s.servicesLock.Lock()
+	defer s.servicesLock.Unlock()
+
 	s.services.Store(service.Name, service)
 }
 
@@ -132,18 +137,33 @@ func (s *serviceDiscovery) StartHeartbeat() {
 			}
 
 			var needToBeRemove []string
+			failedServices := map[string]*Service{}
 
 			s.services.Range(func(name string, service *Service) bool {
 				err := service.Client.Ping()
 				if err != nil {
 					needToBeRemove = append(needToBeRemove, name)
+					failedServices[name] = service
 				}
 
 				return true
 			})
 
 			for _, name := range needToBeRemove {
+				s.servicesLock.Lock()
+
+				if current, ok := s.services.Load(name); ok && current != failedServices[name] {
+					// the instance registered again (over a new connection) while its old connection was being
+					// pinged: dropping it by name now would lose a live follower for good
+					s.servicesLock.Unlock()
+
+					_ = failedServices[name].Client.Close()
+
+					continue
+				}
+
 				s.Remove(name)
+				s.servicesLock.Unlock()
 				logger.Log.Debug("client %s disconnected", name)
 			}
 		}
